@@ -413,6 +413,15 @@ func checkC18(c *Ctx) {
 	for _, f := range dominatingFacts(del.Block()) {
 		if is, op := isFull(f.Cond); is {
 			guards++
+			if !f.Val {
+				// `len < max` not taken is the same fact as `len >= max` taken
+				for _, t := range []token.Token{token.LSS, token.LEQ, token.GTR, token.GEQ} {
+					if t.String() == op {
+						op, f.Val = negateCmp(t).String(), true
+						break
+					}
+				}
+			}
 			c.Check(op == ">=" && f.Val, "C18-R3", "Add:evict-guard", f.From.Instrs[len(f.From.Instrs)-1].Pos(), "eviction guarded by len(Items) >= MaxItems",
 				"eviction is guarded by len(Items) "+op+" MaxItems (taken="+fmt.Sprint(f.Val)+"): the queue can exceed its capacity or evict too early")
 		}
